@@ -5,13 +5,20 @@ NOTE = ("Trusted: rustc nightly's MIR construction/type resolution as dumped by 
         "the reference names). Analysed: lucid-suggest-core's non-test library code (dev profile, "
         "overflow checks on). The runtime-quantified remainder listed in DESIGN.md §5 is not decided.")
 
-NOT_APPLICABLE = {
-    "C13": "whether the full title or two swapped words are found depends on the greedy, order-preserving word "
-           "assignment for the particular title (runtime values); every gate constant is slack for exact word "
-           "matches, so no structural necessary condition is specific to C13 (DESIGN.md §5 C13)",
-}
+NOT_APPLICABLE = {}
 
 TEXTS = {
+    "C13": {"technique": "static analysis: loop-structure rules on the word-assignment scan (CFG regions, guards by data-flow role), gate constants, "
+                         "abstract interpretation of the hit filter (A13), index counting-loop and scratch-state rules",
+            "text": "Decides necessary structure only; which record word a query word is assigned to for a particular title (duplicates, "
+                    "function words, joined words) is a runtime matter and is not decided. Decided: the scan over the record words restarts at "
+                    "the first word and covers all words for every query word (R13.a); words are passed over only when already matched "
+                    "(R13.b); only a non-function match stops the scan (R13.c); equal words pass the length, Jaccard and DL gates (R13.d); "
+                    "a hit with two matched words passes the filter (R13.e, abstract run); every posting of every query gram is counted in "
+                    "counters wide enough, candidates kept iff count > 0, cap >= limit, shared whole-word gram generator, scratch state "
+                    "fresh, pipeline complete (R13.f); per-word tokeniser stages visit every word (R13.g); memo caches coherent, no "
+                    "hidden state (R13.h).",
+            "note": NOTE},
     "C03": {"technique": "static analysis: gate constants located by data-flow in MIR, CFG polarity, rational/IEEE bound check, region-wise symbolic evaluation of the length-gate formula (A11)",
             "text": "Decides necessary constants/shapes only: Jaccard gate accepts 1/2, length and DL gates accept 0, "
                     "gram iterator starts at width 1, index writer/reader share one gram generator, candidate cap >= limit, "
